@@ -44,6 +44,12 @@ def step_node(sel, name, i, k, v):
                                               Y(0, ITEM(1 - k, v + 31 + i)), READ(0), READ("attr")))
         mid = TaskD("%sm%d" % (name, i), SEQ(Y(0, TASK(leaf)), READ(0)))
         return Y(0, TASK(mid))
+    if sel == 9:
+        # a synchronous call whose callee fails because its own context cannot be resumed after a flush; the
+        # caller catches that and carries on (and may then open a context of its own)
+        callee = TaskD("%sq%d" % (name, i), WITH(("rec", "%sq%d" % (name, i), ("resume", 2)),
+                                                 SEQ(Y(0, ITEM(k, v + 40 + i)), Y(0, ITEM(k, v + 41 + i)))))
+        return TRY(SYNC(0, TASK(callee)), "cont")
     raise AssertionError(sel)
 
 
